@@ -125,9 +125,15 @@ func checkInotifyRequest(w *fsnotify.Watcher, dir string, ops fsnotify.Op, nofol
 	opts := []interface{}{}
 	_ = opts
 	var err error
-	if nofollow {
+	// absent (nil) options are skipped wherever they stand in the list
+	switch {
+	case nofollow:
 		err = w.AddWith(dir, fsnotify.VerifWithOps(ops), fsnotify.VerifWithNoFollow())
-	} else {
+	case uint32(ops)%3 == 1:
+		err = w.AddWith(dir, nil, fsnotify.VerifWithOps(ops))
+	case uint32(ops)%3 == 2:
+		err = w.AddWith(dir, fsnotify.VerifWithOps(ops), nil)
+	default:
 		err = w.AddWith(dir, fsnotify.VerifWithOps(ops))
 	}
 	if err != nil {
